@@ -316,7 +316,35 @@ impl<'a> Model<'a> {
                 self.language,
             );
             if formula != formula_displaced {
-                self.update_cell_with_formula(sheet, row, column, format!("={formula_displaced}"))?;
+                // The anchor of a CSE array formula must stay one: writing it as a
+                // plain formula would turn it into a dynamic array.
+                let cse = match self.workbook.worksheet(sheet)?.cell(row, column) {
+                    Some(Cell::ArrayFormula {
+                        r,
+                        s,
+                        kind: ArrayKind::Cse,
+                        ..
+                    }) => Some((*r, *s)),
+                    _ => None,
+                };
+                if let Some(((width, height), style)) = cse {
+                    self.set_cell_with_array_formula(
+                        sheet,
+                        row,
+                        column,
+                        &formula_displaced,
+                        style,
+                        width,
+                        height,
+                    )?;
+                } else {
+                    self.update_cell_with_formula(
+                        sheet,
+                        row,
+                        column,
+                        format!("={formula_displaced}"),
+                    )?;
+                }
             };
         }
         Ok(())
